@@ -148,3 +148,15 @@ Proof.
   - intros. eapply RW.add_local_max_poly_defined; eassumption.
 Qed.
 Print Assumptions C01_ring_defined.
+
+(* ... so when the sweep ends (no Active is hot any more) every OutRec holding points is a closed non-empty ring:
+   over no operation sequence is a contour left open *)
+Theorem C01_ring_all_closed : forall ops s,
+  RW.valid_trace R.init ops -> R.run R.init ops = Some s -> (forall e, R.eo s e = None) ->
+  forall i o, nth_error (R.recs s) i = Some o ->
+  match R.pts o with
+  | Some D => D <> nil /\ R.fe o = None /\ R.be o = None
+  | None => R.fe o = None /\ R.be o = None
+  end.
+Proof. intros ops s V H. exact (RW.all_rings_closed s (RW.reachable_wf ops s V H)). Qed.
+Print Assumptions C01_ring_all_closed.
